@@ -82,8 +82,9 @@ var (
 	OnJump func(d Duration)
 )
 
-// Base is the instant the virtual clock starts at.
-var Base = time.Unix(1_000_000_000, 0)
+// Base is the instant the virtual clock starts at: later than any real instant the code under test may
+// have sampled before the virtual clock was switched on (a package-level `epoch = time.Now()`).
+var Base = time.Unix(4_000_000_000, 0)
 
 // Enable switches to a fresh virtual clock at Base.
 func Enable(auto bool) {
